@@ -97,6 +97,10 @@ type sys struct {
 	wantRootCancel bool
 	// poisoned: a library call panicked while holding the RefCount mutex; nothing can be driven any further
 	poisoned bool
+	// coverage bookkeeping: after the previous event an error with the empty value was stored and some reference in the set
+	// had it as last notification; a kind 1 / 4 consumer was inside its own Release then; consumers already counted
+	prevErrEmpty, prevErrEmptyConsRel bool
+	counted                            map[int]bool
 }
 
 func errOf(code uint64) error {
@@ -815,8 +819,65 @@ func (s *sys) count(ev, obs []uint64) {
 	if ev[0] == 5 && (s.rootc[1] || s.rootc[2] || s.rootc[3]) {
 		s.w.Count("obs.released_after_root_cancel", 1)
 	}
-	if ev[0] == 10 && ev[1] == 2 {
-		s.w.Count("ev.consumer_access", 1)
+	if ev[0] == 10 {
+		s.w.Count("ev.consumer_"+[]string{"wait", "wait_with_released", "access", "resolve", "resolve_with_released"}[ev[1]], 1)
+	}
+	if ev[0] == 8 && len(ev) > 4 && ev[4] == 1 {
+		s.w.Count("ev.resolver_return_error_with_empty_value", 1)
+		if ev[2] == 1 {
+			s.w.Count("ev.resolver_return_error_with_empty_value_and_release_func", 1)
+		}
+	}
+	if ev[0] == 3 && int(ev[1]) < len(s.refs) && s.refs[ev[1]].rel != nil {
+		s.w.Count("ev.release_via_func_returned_by_resolve", 1)
+	}
+	// an error with the empty value is the stored result and a reference in the set was told so; what invalidates it next
+	te := uint64(0)
+	if p := s.terr.GetValue(); p != nil {
+		te = codeOf(*p)
+	}
+	if s.prevErrEmpty && te == 0 {
+		s.w.Count("obs.error_empty_invalidated_by."+names[ev[0]], 1)
+		if ev[0] == 1 && ev[1] == 0 {
+			s.w.Count("obs.error_empty_invalidated_by.clearcontext", 1)
+		}
+		if s.prevErrEmptyConsRel {
+			s.w.Count("obs.error_empty_invalidated_while_consumer_inside_its_release", 1)
+		}
+	}
+	s.prevErrEmpty, s.prevErrEmptyConsRel = false, false
+	if te != 0 {
+		for _, rd := range s.refs {
+			if (rd.kind == 1 || rd.kind == 2) && s.inSet(rd) && rd.last == [3]uint64{2, 0, te} {
+				s.prevErrEmpty = true
+			}
+		}
+		if s.prevErrEmpty {
+			s.w.Count("obs.error_empty_stored_while_referenced", 1)
+			for _, ca := range s.cons {
+				if d := ca.Data.(*cdata); (d.kind == 1 || d.kind == 4) && !d.ret && ca.Parked() {
+					s.prevErrEmptyConsRel = true
+				}
+			}
+		}
+	}
+	if s.counted == nil {
+		s.counted = map[int]bool{}
+	}
+	for i, ca := range s.cons {
+		d := ca.Data.(*cdata)
+		if (d.kind == 3 || d.kind == 4) && d.ret && !s.counted[i] {
+			s.counted[i] = true
+			what := "value_and_release_func"
+			if !d.held {
+				what = "error_and_nil_release_func"
+			}
+			s.w.Count(fmt.Sprintf("obs.%s_returned_%s", []string{3: "resolve", 4: "resolve_with_released"}[d.kind], what), 1)
+		}
+		if d.kind == 4 && d.fired > 0 && !s.counted[1000+i] {
+			s.counted[1000+i] = true
+			s.w.Count("obs.resolve_with_released_callback_fired", 1)
+		}
 	}
 	for _, ca := range s.cons {
 		d := ca.Data.(*cdata)
